@@ -656,3 +656,107 @@ Proof.
     unfold do_put. rewrite Hd. split; reflexivity.
   - unfold do_put. rewrite Hd. split; reflexivity.
 Qed.
+
+(* ------------------------------------------------------------------ DictCache is a well-behaved client *)
+Lemma wf_app a : forall m b, wf m (a ++ b) = wf m a && wf (fold_left spec_m a m) b.
+Proof.
+  induction a as [|op t IH]; intros m b; cbn [app wf fold_left]; [reflexivity|].
+  rewrite IH. rewrite andb_assoc. reflexivity.
+Qed.
+
+Definition LogInv (s : list (Z * Z) * list s_op) : Prop :=
+  wf [] (snd s) = true /\ fold_left spec_m (snd s) [] = fst s.
+
+Lemma log_snoc s op : LogInv s ->
+  (match op with SLoad k | SPreload k | SDelete k => d_has k (fst s) = true | SSave _ _ => True end) ->
+  LogInv (spec_m (fst s) op, snd s ++ [op]).
+Proof.
+  intros [H1 H2] Hop. unfold LogInv. cbn [fst snd]. rewrite wf_app, fold_left_app, H1, H2.
+  cbn [fold_left wf andb]. split; [|reflexivity]. rewrite andb_true_r.
+  destruct op; try exact Hop. reflexivity.
+Qed.
+
+Lemma log_storage_ok : storage_ok log_storage (fun s k => d_get k (fst s)) (fun _ => True).
+Proof.
+  unfold storage_ok, log_storage; cbn [s_load s_save s_delete s_preload fst snd].
+  split; [|split; [|split]].
+  - intros s k v _ H. auto.
+  - intros s k v _. split; [exact I|]. split; [apply d_get_set_eq|].
+    intros k' Hne. apply d_get_set_neq. exact Hne.
+  - intros s k _ _. split; [exact I|]. intros k' Hne. rewrite d_get_del.
+    destruct (k' =? k) eqn:E; [lia|reflexivity].
+  - intros s k _ _. auto.
+Qed.
+
+Definition LRel := Rel (St := list (Z * Z) * list s_op) (fun s k => d_get k (fst s)) (fun _ => True).
+
+Lemma LRel_present c d k : LRel c d -> ks_mem k (c_ltk c) = true -> d_has k (fst (c_store c)) = true.
+Proof.
+  intros (R1 & _ & R3 & _) H. rewrite R1, ks_mem_map_fst in H.
+  apply d_has_get in H. destruct H as [v H]. unfold d_has. rewrite (R3 k v H). reflexivity.
+Qed.
+
+Lemma getitem_log c d k : LRel c d -> LogInv (c_store c) -> LogInv (c_store (fst (c_getitem log_storage c k))).
+Proof.
+  intros HR HL. unfold c_getitem.
+  destruct (d_get k (c_stc c)); [exact HL|].
+  destruct (ks_mem k (c_ltk c)) eqn:E; [|exact HL].
+  assert (Hp := LRel_present c d k HR E).
+  cbn [log_storage s_load]. destruct (d_get k (fst (c_store c))); cbn [fst c_store];
+    apply (log_snoc (c_store c) (SLoad k) HL Hp).
+Qed.
+
+Lemma preload_log ltk rm : forall ks s, (forall k, ks_mem k ltk = true -> d_has k (fst s) = true) ->
+  LogInv s -> LogInv (fst (preload_loop log_storage s ltk ks rm)).
+Proof.
+  induction ks as [|k t IH]; intros s Hp HL; cbn [preload_loop fst]; [exact HL|].
+  destruct (ks_mem k ltk) eqn:E.
+  - apply IH; [intros k' Hk'; cbn [log_storage s_preload fst]; apply Hp; exact Hk'|].
+    apply (log_snoc s (SPreload k) HL). apply Hp. exact E.
+  - destruct rm; [exact HL|]. apply IH; assumption.
+Qed.
+
+Lemma step_log c d op : LRel c d -> LogInv (c_store c) -> LogInv (c_store (fst (c_step log_storage c op))).
+Proof.
+  intros HR HL. destruct op as [k v|k|k|k|k|ks rm|ks|]; cbn [c_step].
+  - cbn [fst c_store log_storage s_save]. apply (log_snoc (c_store c) (SSave k v) HL I).
+  - eapply getitem_log; eassumption.
+  - destruct (ks_mem k (c_ltk c)); [eapply getitem_log; eassumption|exact HL].
+  - destruct (ks_mem k (c_ltk c)) eqn:E; [|exact HL].
+    cbn [fst c_store log_storage s_delete]. apply (log_snoc (c_store c) (SDelete k) HL).
+    eapply LRel_present; eassumption.
+  - exact HL.
+  - pose proof (preload_log (c_ltk c) rm ks (c_store c) (fun k H => LRel_present c d k HR H) HL) as H.
+    destruct (preload_loop log_storage (c_store c) (c_ltk c) ks rm) as [s' e]. exact H.
+  - exact HL.
+  - exact HL.
+Qed.
+
+Lemma run_log ops : forall c d, LRel c d -> LogInv (c_store c) ->
+  LogInv (c_store (fst (c_run log_storage c ops))).
+Proof.
+  induction ops as [|op t IH]; intros c d HR HL; [exact HL|].
+  rewrite c_run_cons. cbn [fst].
+  destruct (step_refines log_storage _ _ log_storage_ok c d op HR) as (_ & HR').
+  eapply IH; [exact HR'|]. eapply step_log; eassumption.
+Qed.
+
+(* whatever a program does with a DictCache, the storage underneath only ever sees loads, preloads
+   and deletes of keys that are stored: the hypothesis of the linearizability theorem is met *)
+Lemma dictcache_calls_wellformed : forall ops, wf [] (calls_of ops) = true.
+Proof.
+  intros ops. unfold calls_of.
+  assert (H : LogInv (c_store (fst (c_run log_storage (c_empty ([], [])) ops)))).
+  { apply (run_log ops (c_empty ([], [])) []); [apply Rel_empty; exact I|]. split; reflexivity. }
+  exact (proj1 H).
+Qed.
+
+Lemma threaded_under_dictcache : forall qmax ops sched,
+  let st := lts_run qmax None sched (init (calls_of ops)) in
+  dead st = false /\
+  (caller_finished st = true -> rev (t_outs st) = spec_outs [] (calls_of ops)).
+Proof.
+  intros qmax ops sched st.
+  destruct (threaded_linearizable qmax (calls_of ops) sched (dictcache_calls_wellformed ops)) as (H1 & _ & H3).
+  split; assumption.
+Qed.
